@@ -17,7 +17,8 @@ RULE = (
     "conservation of the ID multiset for MOVE/SWAP on every input.  Non-trivial = story-level "
     "message whose references resolve, on a running order with >= 2 stories; distinct = distinct "
     "(running order text, message text) digests."
-    " Also: the story-level enumeration behind 270 filler stories (child indices > 256); layouts with an anonymous story (empty storyID) and with look-alike 'twin' IDs / a foreign-namespace <story> ahead of the real one; the same source named twice in a move; unreferenced replaces carrying an existing ID; in histories half of the steps go through msg.merge(ro) instead of ro += msg; half of the shards run with DEBUG logging enabled; one message in twelve is addressed to another roID.")
+    " Also: the story-level enumeration behind 270 filler stories (child indices > 256); layouts with an anonymous story (empty storyID) and with look-alike 'twin' IDs / a foreign-namespace <story> ahead of the real one; the same source named twice in a move; unreferenced replaces carrying an existing ID; in histories half of the steps go through msg.merge(ro) instead of ro += msg; half of the shards run with DEBUG logging enabled; one message in twelve is addressed to another roID."
+    " Round 11: history steps re-using an earlier messageID; directed three-step 'returning element' histories (insert / take away by each of 10 kinds / bring back by each of 9), with and without a shared messageID.")
 ASSUMPTIONS = [
     'story IDs unique within the running order (precondition of C01); carried stories get fresh IDs '
     'except same-ID replacement and the duplicate-insert cases',
